@@ -306,15 +306,29 @@ impl Renderer<'_> {
     }
 }
 
+/// parse a document through each entry point of serde_json (they hand strings and numbers to the library's visitors in
+/// different ways: borrowed from a str, copied from a reader, owned from an in-memory `Value`); all must agree
 fn parse_dbg(create: bool, text: &str) -> Result<String, String> {
-    let r = catch_unwind(AssertUnwindSafe(|| {
-        if create {
-            serde_json::from_str::<CredentialCreationOptions>(text).map(|v| format!("{v:?}")).map_err(|e| e.to_string())
-        } else {
-            serde_json::from_str::<CredentialRequestOptions>(text).map(|v| format!("{v:?}")).map_err(|e| e.to_string())
+    fn all<T: serde::de::DeserializeOwned + std::fmt::Debug>(text: &str) -> Result<String, String> {
+        let a = serde_json::from_str::<T>(text).map(|v| format!("{v:?}")).map_err(|e| e.to_string());
+        let b = serde_json::from_reader::<_, T>(std::io::Cursor::new(text.as_bytes())).map(|v| format!("{v:?}")).map_err(|e| e.to_string());
+        let c = serde_json::from_str::<Value>(text).map_err(|e| e.to_string()).and_then(|v| serde_json::from_value::<T>(v).map(|v| format!("{v:?}")).map_err(|e| e.to_string()));
+        for (name, other) in [("from_reader", &b), ("from_value", &c)] {
+            match (&a, other) {
+                (Ok(x), Ok(y)) if x == y => {}
+                (Err(_), Err(_)) => {}
+                _ => return Err(format!("serde_json::from_str and serde_json::{name} disagree on the same document: {} vs {}", trunc_res(&a), trunc_res(other))),
+            }
         }
-    }))
-    .map_err(|_| format!("parse panicked: {}", crate::last_panic()))?;
+        a
+    }
+    fn trunc_res(r: &Result<String, String>) -> String {
+        match r {
+            Ok(s) => format!("Ok({})", s.chars().take(160).collect::<String>()),
+            Err(e) => format!("Err({e})"),
+        }
+    }
+    let r = catch_unwind(AssertUnwindSafe(|| if create { all::<CredentialCreationOptions>(text) } else { all::<CredentialRequestOptions>(text) })).map_err(|_| format!("parse panicked: {}", crate::last_panic()))?;
     r
 }
 
@@ -376,6 +390,21 @@ pub fn check_bytes(ctx: &mut Ctx, b: &Vec<u8>) -> Result<(), String> {
         match Bytes::try_from(text.as_str()) {
             Ok(d) if d.as_slice() == b.as_slice() => {}
             other => return Err(format!("{name} presentation {text:?} of {} decodes to {other:?}", crate::core::hex(b))),
+        }
+    }
+    // and so through every serde_json entry point (borrowed, copied and owned strings reach different visitor methods)
+    for (name, text) in [("base64url", b64url(b)), ("base64url padded", b64url_padded(b)), ("base64", b64std(b)), ("base64 padded", b64std_padded(b))] {
+        let doc = serde_json::to_string(&text).unwrap();
+        let via: [(&str, Result<Bytes, String>); 3] = [
+            ("from_str", serde_json::from_str::<Bytes>(&doc).map_err(|e| e.to_string())),
+            ("from_reader", serde_json::from_reader::<_, Bytes>(std::io::Cursor::new(doc.as_bytes())).map_err(|e| e.to_string())),
+            ("from_value", serde_json::from_value::<Bytes>(Value::String(text.clone())).map_err(|e| e.to_string())),
+        ];
+        for (entry, r) in via {
+            match r {
+                Ok(d) if d.as_slice() == b.as_slice() => {}
+                other => return Err(format!("{name} presentation {text:?} of {} read with serde_json::{entry} gives {other:?}", crate::core::hex(b))),
+            }
         }
     }
     if !b.is_empty() {
@@ -545,7 +574,7 @@ fn pres() -> impl Strategy<Value = Pres> {
 }
 
 pub fn run(ctx: &mut Ctx) {
-    ctx.rule = "option value trees (creation and request options, every optional member present/absent, descriptors, selection criteria, hints, attestation members, extensions with PRF inputs) rendered under generated presentations: each binary member as number array / base64url / base64url padded / base64 / base64 padded; timeouts and algorithm ids as number, numeric string, integral float, stringified float, exponent form; unknown members injected at every object level; unknown enumeration strings in scalars and lists; the allowList alias. Plus byte strings (encode/decode identity, every textual presentation), client data with generated extras (nested JSON, any key order) and unknown members, and credentials emitted by real ceremonies. Non-trivial = presentation differing from the canonical one in at least two members, a non-empty byte string, client data with extra/unknown members, an emitted credential pair; distinct by case.".into();
+    ctx.rule = "option value trees (creation and request options, every optional member present/absent, descriptors, selection criteria, hints, attestation members, extensions with PRF inputs) rendered under generated presentations (each parsed through serde_json::from_str, from_reader and from_value, which must agree): each binary member as number array / base64url / base64url padded / base64 / base64 padded; timeouts and algorithm ids as number, numeric string, integral float, stringified float, exponent form; unknown members injected at every object level; unknown enumeration strings in scalars and lists; the allowList alias. Plus byte strings (encode/decode identity, every textual presentation), client data with generated extras (nested JSON, any key order) and unknown members, and credentials emitted by real ceremonies. Non-trivial = presentation differing from the canonical one in at least two members, a non-empty byte string, client data with extra/unknown members, an emitted credential pair; distinct by case.".into();
     ctx.assumptions = vec![
         "parsed values are compared through their Debug rendering (the types have no PartialEq); per-credential PRF inputs carry at most one entry so that map order cannot differ".into(),
         "canonical form: unknown scalar enumeration strings are omitted (the member takes its default), unknown list entries and parameters with unassigned algorithm numbers are dropped, unknown credential types read as 'unknown'".into(),
